@@ -43,11 +43,12 @@ type gframe map[string]value.Type
 
 // Memory holds all variables.
 type Type struct {
-	sp      int
-	fp      []int
-	global  gframe
-	closure []Frame
-	stack   []value.Type
+	sp       int
+	fp       []int
+	global   gframe
+	closure  []Frame
+	stack    []value.Type
+	captured []*Frame // captured holds the copy of each frame handed out to closures, nil if there is none
 }
 
 // New creates a new memory, with an empty global frame and an empty stack.
@@ -91,6 +92,12 @@ func (m *Type) Clone(reuse *Type) *Type {
 		return &Type{sp: 0, fp: newFP, global: m.global, closure: slices.Clip(m.closure), stack: newStack}
 	}
 
+	var newCaptured []*Frame
+	if reuse != nil {
+		newCaptured = reuse.captured[:0]
+	}
+	newCaptured = append(newCaptured, nil)
+
 	fp := m.fp[len(m.fp)+localFP]
 	le := m.fp[len(m.fp)+localFE]
 
@@ -103,10 +110,11 @@ func (m *Type) Clone(reuse *Type) *Type {
 		reuse.global = m.global
 		reuse.closure = slices.Clip(m.closure)
 		reuse.stack = newStack
+		reuse.captured = newCaptured
 		return reuse
 	}
 
-	return &Type{sp: m.sp - fp, fp: newFP, global: m.global, closure: slices.Clip(m.closure), stack: newStack}
+	return &Type{sp: m.sp - fp, fp: newFP, global: m.global, closure: slices.Clip(m.closure), stack: newStack, captured: newCaptured}
 }
 
 // CallDepth is the number of call frames.
@@ -122,6 +130,9 @@ func (m *Type) Set(symIdx int, v value.Type) {
 	fp := m.fp[len(m.fp)+localFP]
 	sp := fp + symIdx
 	m.stack[sp] = v
+	if c := m.captured[len(m.captured)-1]; c != nil {
+		(*c)[symIdx] = v
+	}
 }
 
 // LookUpLocal looks up a local variable.
@@ -155,6 +166,7 @@ func (m *Type) PushFrame(argsCnt, localCnt int) {
 	}
 	m.sp += localCnt - argsCnt
 	m.fp = append(m.fp, m.sp-localCnt, m.sp)
+	m.captured = append(m.captured, nil)
 }
 
 // Push pushes a value.
@@ -174,6 +186,7 @@ func (m *Type) PopFrame() {
 	fp := m.fp[len(m.fp)+localFP]
 	m.sp = fp
 	m.fp = m.fp[:len(m.fp)-2]
+	m.captured = m.captured[:len(m.captured)-1]
 }
 
 // Pop pops the last pushed value decrementing the stack pointer.
@@ -195,6 +208,24 @@ func (m *Type) Top() Frame {
 	fp := m.fp[len(m.fp)+localFP]
 	le := m.fp[len(m.fp)+localFE]
 	return m.stack[fp:le]
+}
+
+// Capture returns the last stack frame for a closure to hold on to.
+//
+// It is a copy of the frame that Set keeps up to date until the frame is
+// popped, thus it neither moves when the stack grows nor is overwritten once
+// the frame is gone.
+func (m *Type) Capture() *Frame {
+	if len(m.fp) < 1 {
+		var none Frame
+		return &none
+	}
+	i := len(m.captured) - 1
+	if m.captured[i] == nil {
+		frame := slices.Clone(m.Top())
+		m.captured[i] = &frame
+	}
+	return m.captured[i]
 }
 
 // IP returns the function return address.
@@ -260,4 +291,5 @@ func (m *Type) Reset() {
 	m.sp = 0
 	m.closure = []Frame{}
 	m.fp = []int{}
+	m.captured = nil
 }
